@@ -58,7 +58,7 @@ CLAIMED = {
              "set only after connect==0 or wait+SO_ERROR==0. " + DECIDES % "C09",
         technique="scenario-seeded guard dataflow per call site (EINTR / would-block), alias-based result provenance, switch-table recovery, type-width check of the length path"),
     "C10": dict(
-        text="Rules C10.1-C10.6 on psocket.c: every read of socket->fd in an operation is reached only after the closed test passed "
+        text="Rules C10.1-C10.6 on psocket.c (C10.5 includes: a flag stored into a bit-field narrower than its source is normalised to 0/1): every read of socket->fd in an operation is reached only after the closed test passed "
              "(pp_socket_check summarised and itself checked, named exceptions with reasons); close sets fd=-1/closed/!connected/!listening on "
              "success, is idempotent and is the only closer used by free; a non-blocking socket never reaches the condition wait or a retry "
              "in the would-block scenario; poll gets the socket timeout when positive else a negative constant, fixed before the retry loop, "
@@ -96,14 +96,15 @@ CLAIMED = {
              "losing and failing paths. " + DECIDES % "C05",
         technique="spinlock typestate over the creator path, dominance rules for the proxy and join, who-touches-field rule for ref_count, guard dataflow at release and notifier calls, holder typestate in the TLS key creation"),
     "C11": dict(
-        text="Rules C11.1-C11.7 on pcryptohash*.c: dispatch table (every enumerator has a case, six slots from one algorithm unit, "
+        text="Rules C11.1-C11.8 on pcryptohash*.c: dispatch table (every enumerator has a case, six slots from one algorithm unit, "
              "variant-specific constructor, standard digest length fitting the state array, exact range test); dispatcher typestate "
              "(update only while open, finish once then closed before the digest is read, reset reopens, bounded copy-out); hex "
              "encoding as term identities; the psize update length never compared/accumulated through a narrowing cast without "
              "high-part accounting; block-size constants agree with the buffer's byte size and the padding constants satisfy the "
              "standard identity; reset re-initialises every field update/finish write; possibly-aliasing padding stores OR their bits "
-             "in. " + DECIDES % "C11",
-        technique="switch/slot table recovery, guard dataflow at slot calls, typed-AST narrowing rule with sibling cross-check, constant-geometry agreement with record layouts, transitive field write sets, index-aliasing rule"),
+             "in; the carry-out predicate of a multi-word addition with carry-in equals the true carry on every feasible ordering class "
+             "of (sum, operands, carry-in). " + DECIDES % "C11",
+        technique="switch/slot table recovery, guard dataflow at slot calls, typed-AST narrowing rule with sibling cross-check, constant-geometry agreement with record layouts, transitive field write sets, index-aliasing rule, exhaustive evaluation of comparison-only predicates over the finite set of ordering classes"),
     "C12": dict(
         text="Rules C12.1-C12.5 on ptree*.c: dispatch triples per tree type; every descent loop (lookup, 3 inserts, 3 removes) calls the "
              "comparator as (search key, node key, data) and goes left on < 0 / right on > 0; insert returns TRUE exactly when a new node "
@@ -112,12 +113,15 @@ CLAIMED = {
              "returns early only with the counter zero and stops calling back after a stop request. " + DECIDES % "C12",
         technique="term-valued dataflow with loop widening over the variant functions, guard dataflow for orientation/count/traversal discipline, switch-table recovery"),
     "C13": dict(
-        text="THIN claim - rule C13.1 only (must-rebalance): in the red-black and AVL variants every path that links a new node initialises its "
-             "parent link and colour/balance factor and then calls the helper that (transitively) recolours/rotates, given that node; every "
-             "AVL removal retraces before the node is freed; the red-black removal fix-up runs on the childless-black path before the node is "
-             "unlinked. The balance invariants themselves and the comparison bounds are NOT decided by this technique (shape + arithmetic "
-             "over unbounded trees); see DESIGN.md section 4 C13.",
-        technique="must-pass-through rule on term-flow return states; helpers discovered by their transitive field write sets"),
+        text="Rules C13.1-C13.4 on ptree-rb.c / ptree-avl.c. C13.2/C13.3 (shape analysis by materialisation, all local shapes, symbolic heights): "
+             "from the loop invariant every path of the red-black insert/remove fix-ups and of the AVL insert/remove retracing (rotations analysed "
+             "inline) either returns with the invariant restored - equal black heights and no red-red edge, resp. every stored balance factor equal "
+             "to the height difference with |difference| <= 1 and the old subtree height - with in-order sequence, parent links and *root intact, "
+             "or continues one level up with the loop invariant re-established (induction). C13.1/C13.4 (term flow): every insertion/removal path "
+             "reaches the fix-up with its entry invariant (new node RED / factor 0, NULL children, parent set, linked; retrace from the leaf before "
+             "unlinking or from the relinked child; fix-up before unlink on the childless-black path; an only child replacing a black node is "
+             "painted black). The numeric comparison bounds follow from the invariants by the textbook argument and are not re-derived. " + DECIDES % "C13",
+        technique="parametric shape analysis (materialisation/focus over a local heap with summary subtrees carrying symbolic black heights / heights, induction over the fix-up loop, helpers inlined) plus must-pass-through rules on term-flow return states"),
     "C14": dict(
         text="Rules C14.1-C14.4 on ptree*.c: on every successful removal path (all three variants) the key and value of the node whose key "
              "compared equal go to their notifiers exactly once, nothing still stored in a surviving node is destroyed, the removed pair does "
@@ -132,12 +136,14 @@ CLAIMED = {
              "it and stops, not-found marker (ppointer)-1, listing functions walk every chain to its end; no use after release. " + DECIDES % "C15",
         technique="typed-AST signedness rule, index provenance, loop-exit analysis of chain walks, path-sensitive use-after-release typestate"),
     "C16": dict(
-        text="Rules C16.1-C16.5 on pinifile.c (safety part): every unbounded %[ conversion and strcpy in the parse loop fits its destination "
+        text="Rules C16.1-C16.6 on pinifile.c: every unbounded %[ conversion and strcpy in the parse loop fits its destination "
              "array given the fgets bound; parameter objects come only from those arrays, which bounds the list getter's buffer; sections "
              "are linked only with a non-empty key list and parameters only into an open section; getters return the default for a missing "
              "key and release the looked-up copy; each line string is freed and the file closed on every path; typed getters use the "
-             "documented conversion primitive and radix. The grammar semantics of the scanf patterns are not decided. " + DECIDES % "C16",
-        technique="format-string conversion bounds against array types, single-producer who-calls rule, restricted guard dataflow typestate for line/file/section"),
+             "documented conversion primitive and radix; the four line patterns, their order and conversion counts are the documented grammar "
+             "table and the header pattern is applied only to lines that start with '[' and end with ']'. What the scanf patterns accept "
+             "beyond that table agreement is not decided. " + DECIDES % "C16",
+        technique="format-string conversion bounds against array types, single-producer who-calls rule, restricted guard dataflow typestate for line/file/section, format-table agreement with edge-cut dominance of the header guards"),
     "C17": dict(
         text="Rules C17.1-C17.4 on psocketaddress.c: every access through the native/destination buffer lies below the established length "
              "(offsets and sizes from the record layouts); to_native and new_from_native copy the same (object field, native byte range) "
